@@ -46,7 +46,7 @@ EXTREME = [('p4', 1e-4), ('p4', 1e-5), ('p2', 60.0)]
 
 
 def bounds(tier):
-    return {'public': 'all 83 non-empty multisets of <= 3 records over 6 cells' if tier == 'thorough' else 'all 27 multisets of <= 2 records + every fifth 3-record multiset', 'structures': list(STRUCTS), 'kinds': ['identity', 'prefix'],
+    return {'public': 'all 83 non-empty multisets of <= 3 records over 6 cells' if tier == 'thorough' else 'all 27 multisets of <= 2 records + every fifth 3-record multiset', 'structures': list(STRUCTS), 'kinds': ['identity', 'prefix', 'stacked (histogram + its total)', 'doubled (every cell twice)'],
             'sigmas': [0.5, 2.0], 'totals': ['1', 'N', 'None'], 'private': list(PRIVATE) if tier == 'thorough' else 'rotated', 'history_depth': 2}
 
 
@@ -77,10 +77,12 @@ def build_measurements(struct, kind, sigma, priv, seed):
     for cl in (STRUCTS.get(struct) or STRUCTS_DUP[struct]):
         x = O.marginal(table, ATTRS, cl).flatten()
         n = x.size
-        Q = np.eye(n) if kind == 'identity' else np.tril(np.ones((n, n)))
+        # 'stacked' = histogram plus its own total, 'doubled' = every cell asked twice: equal column sums, linearly dependent rows
+        Q = {'identity': np.eye(n), 'prefix': np.tril(np.ones((n, n))), 'stacked': np.vstack([np.eye(n), np.ones((1, n))]),
+             'doubled': np.vstack([np.eye(n), np.eye(n)])}[kind]
         s_ = sigma * 40.0 if cl in seen else sigma     # a repeated clique: the later measurements are much noisier than the first
         seen.append(cl)
-        y = Q @ x + s_ * rng.randn(n)
+        y = Q @ x + s_ * rng.randn(Q.shape[0])
         # one-attribute cliques are spelled as the bare attribute name for the prefix kind (a legal spelling of a projection)
         ms.append((Q.copy(), y.copy(), s_, cl[0] if (len(cl) == 1 and kind == 'prefix') else tuple(cl)))
         dense.append((Q, y, s_, tuple(cl)))
@@ -154,6 +156,9 @@ def run_public(acc, pi, tier, seed, only=None):
     combos += [(priv, struct, 'identity' if list(STRUCTS).index(struct) % 2 == 0 else 'prefix', sigma) for (priv, sigma) in ex
                for struct in (STRUCTS if tier == 'thorough' else [list(STRUCTS)[pi % 6], list(STRUCTS)[(pi + 1) % 6]])]
     combos += [(['p1', 'p2', 'p3'][pi % 3], sd, ['identity', 'prefix'][(pi + j_) % 2], 0.5) for j_, sd in enumerate(STRUCTS_DUP)]
+    combos += [(['p1', 'p2', 'p3'][(pi + 1) % 3], list(STRUCTS)[(pi + 2) % 6], ['stacked', 'doubled'][pi % 2], 2.0)]
+    if tier == 'thorough':
+        combos += [(['p1', 'p2', 'p3'][(pi + 1) % 3], list(STRUCTS)[(pi + 5) % 6], ['doubled', 'stacked'][pi % 2], 0.5)]
     for priv, struct, kind, sigma in combos:
         N = float(len(PRIVATE[priv]))
         if True:
